@@ -28,6 +28,7 @@ func Harness_C14_generated() {
 			gotArgs = "f=" + renderFilter(f) + " xs=" + renderInts(xs) + " n=" + itoa(n)
 			return ret
 		}
+		cfg.Complexity.Box.Label = func(childComplexity int) int { calls++; gotChild = childComplexity; return ret }
 		cfg.Complexity.User.Name = func(childComplexity int) int { calls++; gotChild = childComplexity; return ret }
 	}
 	es := NewExecutableSchema(cfg)
@@ -43,6 +44,8 @@ func Harness_C14_generated() {
 		{"User", "calc", map[string]any{"o": "bad", "n": int64(7)}, false, ""},
 		{"User", "calc", map[string]any{"xs": []any{"x"}, "n": int64(7)}, false, ""},
 		{"User", "name", nil, true, ""},
+		{"Box", "label", nil, true, ""},
+		{"Box", "caption", nil, true, ""}, // a second GraphQL field bound to the same Go field: the one function prices both
 		{"User", "nope", nil, false, ""},
 		{"Nope", "name", nil, false, ""},
 		{"User", "friends", nil, false, ""}, // no custom function registered for it
